@@ -397,6 +397,9 @@ func checkLeafDump(r *Run, prog *Program, ga *GA, pfx string) {
 			if printsLiteral[c.Name()] && !(usesRaw && quoted) {
 				probs = append(probs, "for "+c.Name()+" the quoted literal must be printed")
 			}
+			if !printsLiteral[c.Name()] && usesRaw {
+				probs = append(probs, "for "+c.Name()+" the rendering shows a literal: the documented block has the literal for the equality and membership operators only")
+			}
 			if !selOK {
 				probs = append(probs, "the selector is not printed in its own spelling (through Selector.String)")
 			}
